@@ -547,7 +547,7 @@ def name_rule_rows(probe=True):
         nparams = len(c._parameters)
         dropped = []
         if a["whole_from_operand"]:
-            dropped = list(range(max(nparams, 1)))
+            dropped = []  # `_DelayedExpr`: the name *is* the key of the wrapped Delayed — a function of the operand, nothing dropped
         elif a["dropped_last"]:
             dropped = list(range(max(0, nparams - a["dropped_last"]), max(nparams, 1)))
         elif not a["tok_all"]:
